@@ -136,6 +136,9 @@ func (dist *ChiSquaredDistribution) ImportConfig(config ConfigDistribution, t Sc
   if parameters, ok := config.GetParametersAsFloats(); !ok {
     return fmt.Errorf("invalid config file")
   } else {
+    if len(parameters) != 1 {
+      return fmt.Errorf("invalid config file")
+    }
     if tmp, err := NewChiSquaredDistribution(t, parameters[0]); err != nil {
       return err
     } else {
